@@ -332,11 +332,18 @@ def replaceL (pat rep : List Char) : Nat → List Char → List Char
 def strReplace (s pat rep : String) : String :=
   if pat = "" then s else String.ofList (replaceL pat.toList rep.toList s.length s.toList)
 
-/-- `texfile_name.replace(".tex", ".pdf")` -/
-def pdfPathOf (tex : String) : String := strReplace tex ".tex" ".pdf"
+/-- `s[:-n]` -/
+def dropEnd (s : String) (n : Nat) : String := String.ofList (s.toList.take (s.toList.length - n))
 
-/-- `pdf_name.replace(".pdf", "") + "." + format` -/
-def pngPathOf (pdf : String) (format : String) : String := strReplace pdf ".pdf" "" ++ "." ++ format
+/-- the pdf named for a `.tex` file (`latex_to_pdf.py:144-149`, after commit 7f5ee11): only the extension is
+replaced; a name that does not end with ".tex" keeps the old `texfile_name.replace(".tex", ".pdf")` -/
+def pdfPathOf (tex : String) : String :=
+  if tex.endsWith ".tex" then dropEnd tex 4 ++ ".pdf" else strReplace tex ".tex" ".pdf"
+
+/-- the image named for a pdf (`pdf_to_png.py:90-95`): the name without its extension ".pdf" (otherwise
+`pdf_name.replace(".pdf", "")`), then `"." + format` -/
+def pngPathOf (pdf : String) (format : String) : String :=
+  (if pdf.endsWith ".pdf" then dropEnd pdf 4 else strReplace pdf ".pdf" "") ++ "." ++ format
 
 /-- lines 152-175 for a `.tex` value: `chg` = incoming `output.changed`.  When the key is absent the
 modification times are compared (`FileNotFoundError` if the `.tex` file is missing while the pdf
